@@ -294,6 +294,46 @@ func ruleRemoveFilter(r *Run) {
 			r.bad("removeHandler/empty-edge", hr.del.Pos(), "the per-method entry is deleted / written back on the wrong edge of the emptiness test: a method with a live backend is reported unimplemented, or an empty entry stays")
 		}
 	}
+	// (5) the filter runs for every method of the dropped connection: no way from the start of removeHandler to the
+	// delete / write-back of a per-method entry skips the loop over that method's current handlers (a "nothing can be
+	// shared" shortcut forgets the handlers of local services, which are in no connection's list)
+	handlersF := p.StructField("state", "handlers")
+	isFilterRead := func(x ssa.Instruction) bool {
+		lk, ok := x.(*ssa.Lookup)
+		if !ok {
+			return false
+		}
+		for _, o := range p.origins(lk.X, originOpts{local: true}) {
+			if loadsField(o, handlersF) {
+				// read as the source of a range (its length or elements are used), not as a map-update
+				return true
+			}
+		}
+		return false
+	}
+	var sinks []ssa.Instruction
+	if hr.del != nil {
+		sinks = append(sinks, hr.del)
+	}
+	if hr.upd != nil {
+		sinks = append(sinks, hr.upd)
+	}
+	skipped := false
+	for _, sk := range sinks {
+		sk := sk
+		if sk.Parent() != rm {
+			continue
+		}
+		// the entry of the loop over the connection's handlers: start from the function entry
+		if w, _ := (pathQuery{fn: rm, target: func(x ssa.Instruction) bool { return x == sk }, barrier: isFilterRead}).find(); w != nil {
+			skipped = true
+			r.bad("removeHandler/filter-always-runs", sk.Pos(), "a per-method handler entry is deleted or rewritten on a path that never read the method's current handler list (%s): a shortcut around the filter removes the handlers of everyone else - local services registered with RegisterService are in no connection's list - and a method with a live backend is answered Unimplemented", p.describePath(w))
+			break
+		}
+	}
+	if !skipped && len(sinks) > 0 {
+		r.ok("removeHandler/filter-always-runs", rm.Pos(), "every deletion / write-back of a per-method entry follows a read of that method's current handlers")
+	}
 }
 
 func init() {
